@@ -136,7 +136,87 @@ func runC03Crash(run *Run, seed int64, sc faultScn, rng *rand.Rand) (out []*c01R
 			}
 		}
 	})
+	// "stops listing it": once removed, a crashed member does not come back on old news. While a
+	// survivor still holds the dead record it is sent - as delayed gossip from another survivor - the alive
+	// claim it last accepted (same address, same incarnation): right after the removal and, when a
+	// reclaim time is set, once more after it has elapsed. One poll later the member must still be unlisted.
+	stale := 0
+	type staleKey struct {
+		s, c  int
+		stage int
+	}
+	staleSent := map[staleKey]bool{}
+	type staleExp struct {
+		s        *chaosNode
+		name     string
+		inc      uint32
+		stage    int
+		deadline time.Time
+	}
+	var staleWait []staleExp
+	staleStep := func(ch *Chaos) {
+		now := time.Now()
+		keep := staleWait[:0]
+		for _, e := range staleWait {
+			if now.Before(e.deadline) {
+				keep = append(keep, e)
+				continue
+			}
+			if e.s.Live() {
+				for _, nm := range e.s.Node.MemberNames() {
+					if nm == e.name {
+						fail("relisted-on-old-news", "%s had removed crashed %s (dead at incarnation %d); a delayed copy of the alive claim at that incarnation from the same address made it list the member again (reclaim time %v, stage %d)", e.s.Name, e.name, e.inc, sc.Reclaim, e.stage)
+					}
+				}
+			}
+		}
+		staleWait = keep
+		live := ch.LiveNodes()
+		if len(live) < 2 {
+			return
+		}
+		for _, sN := range live {
+			for _, c := range ch.Nodes {
+				if !c.Crashed || c.Replaced {
+					continue
+				}
+				r := sN.Node.Record(c.Name)
+				if r == nil || r.State != memberlist.StateDead {
+					continue
+				}
+				age := now.Sub(r.StateChange)
+				stage := 0
+				if sc.Reclaim > 0 && age > sc.Reclaim+500*time.Millisecond {
+					stage = 1
+				}
+				k := staleKey{sN.Idx, c.Idx, stage}
+				if staleSent[k] || age > sc.DeadTime-time.Second {
+					continue
+				}
+				staleSent[k] = true
+				from := live[rng.Intn(len(live))]
+				if from == sN {
+					continue
+				}
+				pc := PacketCfg{Label: sc.Label}
+				if ch.key != nil {
+					pc.Key, pc.EncVsn = ch.key, 1
+					if sN.Node.Conf.ProtocolVersion == 1 {
+						pc.EncVsn = 0
+					}
+				}
+				msg := Enc(TAlive, &WAlive{Incarnation: r.Incarnation, Node: c.Name, Addr: r.Addr, Port: r.Port, Meta: r.Meta, Vsn: r.Vsn[:]})
+				var pkt []byte
+				ch.C.Net.Rand(func(rr *rand.Rand) { pkt = BuildPacket(pc, msg, rr) })
+				ch.C.Net.Inject(sN.Node.EP, from.Node.EP.Addr, pkt)
+				staleWait = append(staleWait, staleExp{sN, c.Name, r.Incarnation, stage, now.Add(100 * time.Millisecond)})
+				stale++
+				run.Cell("stale-alive-after-removal", fmt.Sprintf("stage=%d", stage))
+			}
+		}
+	}
 	ch.OnPoll = func(ch *Chaos) {
+		staleStep(ch)
 		for _, c := range ch.Nodes {
 			if !c.Crashed {
 				continue
@@ -299,6 +379,7 @@ func runC03Crash(run *Run, seed int64, sc faultScn, rng *rand.Rand) (out []*c01R
 			fail("late", "%s removed crashed %s after %v, bound is %v (%d records)", s.Name, c.Name, d, bound, ps.maxRec)
 		}
 	}
+	run.Count("stale_alive_claims_after_removal", int64(stale))
 	run.Count("pairs_judged", int64(judged))
 	run.Count("polls", int64(ch.Polls))
 	if judged == 0 {
